@@ -291,9 +291,9 @@ class Bench:
             net.reset()
             self.emit("reset")
         elif k == "setWrite":
-            for t in net.transports:
-                t.fail_writes = None if op[1] else OSError("boom")
-            self._fail_next = not op[1]
+            net.fail_writes = None if op[1] else OSError("boom")
+            for t in getattr(net, "all_transports", []):
+                t.fail_writes = net.fail_writes
             self.emit(f"setWrite {op[1]}")
         elif k == "step":
             self.do_step()
